@@ -10,9 +10,9 @@ CONSTANTS
   MaxDown = 1
   MaxRot = 1
   MaxStall = 0
-  RotateFollows = FALSE
+  RotateFollows = TRUE
   WholeBatches = TRUE
-  PollRereads = TRUE
+  PollRereads = FALSE
 INVARIANTS AppliedIsPrefix NoSplitBatch
 PROPERTIES Converges
 CHECK_DEADLOCK FALSE
